@@ -362,6 +362,25 @@ func runToolC15(cfg runCfg) {
 		os.RemoveAll(root)
 	}
 	w.flush()
+	// ---- goverter:variables blocks without output:file: the code lands in <file>.gen.go next to the declaring file,
+	// whatever the file is called (several dots, generated-looking names) ----
+	for vi, name := range []string{"conv.go", "user.v1.go", "event.pb.go", "a.b.c.go", "x_gen.go"} {
+		root, _ := filepath.Abs(filepath.Join(cfg.out, fmt.Sprintf("var%d", vi)))
+		files := map[string]string{"go.mod": "module example.org/m\n\ngo 1.22\n",
+			"v/" + name: "package v\n\n" + toolTypes + "\n// goverter:variables\nvar (\n\tToOut func(source In) Out\n)\n"}
+		writeTree(root, files)
+		before := snapshot(root)
+		res := runCLI(bin, root, "gen", "./v")
+		created, changed, removed := diffSnap(before, snapshot(root))
+		want := "v/" + strings.TrimSuffix(name, ".go") + ".gen.go"
+		replay := map[string]interface{}{"declaring_file": "v/" + name, "exit": res.exit, "stderr": firstLines(res.stderr, 4), "created": created}
+		rep.eval("variables-default-file|"+name, res.exit == 0)
+		rep.count(fmt.Sprintf("exit=%d", res.exit))
+		if res.exit != 0 || len(changed)+len(removed) > 0 || len(created) != 1 || created[0] != want {
+			rep.violate(Violation{CaseID: fmt.Sprintf("var%d", vi), What: fmt.Sprintf("variables block in v/%s: expected exactly %s to be created, got exit=%d created=%v changed=%v removed=%v", name, want, res.exit, created, changed, removed), Sig: "written-set", Replay: replay})
+		}
+		os.RemoveAll(root)
+	}
 	// ---- converters of two packages selecting the SAME output file: they must agree on the package (path and name) ----
 	w2 := &shardWriter{dir: cfg.out, stem: "C15S", max: 200, rep: rep, off: cfg.oracleOnly,
 		header:  "From Coq Require Import List NArith String.\nFrom GV Require Import Base Paths.\nImport ListNotations. Open Scope N_scope.",
